@@ -24,8 +24,8 @@ var MemberSrc = []string{
 	`0`, `1`, `2`,
 	`()`, `(a:0)`, `(a:1)`, `(b:1)`, `(a:1,b:1)`,
 	`(@:0,@item:1)`, `(@:0,@item:2)`, `(@:1,@item:1)`, `(@:1,@item:2)`, `(@:2,@item:1)`, `(@:2,@item:2)`, `(@:0,@item:{})`,
-	`(@:0,@char:97)`, `(@:0,@char:98)`, `(@:1,@char:97)`, `(@:1,@char:98)`, `(@:2,@char:97)`, `(@:2,@char:98)`,
-	`(@:0,@byte:1)`, `(@:0,@byte:2)`, `(@:1,@byte:1)`, `(@:1,@byte:2)`,
+	`(@:0,@char:97)`, `(@:0,@char:98)`, `(@:1,@char:97)`, `(@:1,@char:98)`, `(@:2,@char:97)`, `(@:2,@char:98)`, `(@:1,@char:0)`,
+	`(@:0,@byte:1)`, `(@:0,@byte:2)`, `(@:1,@byte:1)`, `(@:1,@byte:2)`, `(@:0,@byte:0)`,
 	`(@:1,@value:2)`, `(@:1,@value:3)`, `(@:2,@value:2)`, `(@:2,@value:3)`, `(@:"a",@value:1)`,
 	`{}`, `{1}`, `"a"`, `[1]`,
 }
@@ -163,8 +163,15 @@ func (sp *Space) Small(m *model.V) bool {
 
 // Add registers a value as a state if its shape is new and it is self-consistent.
 // It returns the state (nil if quarantined / not data) and whether it was new.
-func (sp *Space) Add(v rel.Value, prog string, gen int) (*State, bool) {
+func (sp *Space) Add(v rel.Value, prog string, gen int, taint, producer string) (*State, bool) {
 	key := rel.VerifShape(v)
+	qsig := func(bad string) string {
+		t := ""
+		if taint != "" {
+			t = "taint:" + taint + "|"
+		}
+		return t + producer + "|" + Class(key) + "|" + bad
+	}
 	if st, ok := sp.ByKey[key]; ok {
 		return st, false
 	}
@@ -174,12 +181,12 @@ func (sp *Space) Add(v rel.Value, prog string, gen int) (*State, bool) {
 	m, err := obs.Denote(v)
 	if err != nil {
 		sp.Quarantined[key] = "undenotable:" + err.Error()
-		sp.QClass[Class(key)+"|undenotable"] = append(sp.QClass[Class(key)+"|undenotable"], prog)
+		sp.QClass[qsig("undenotable")] = append(sp.QClass[qsig("undenotable")], prog)
 		return nil, true
 	}
 	if bad := obs.SelfCheck(v, m, sp.Members); bad != "" {
 		sp.Quarantined[key] = bad
-		sp.QClass[Class(key)+"|"+bad] = append(sp.QClass[Class(key)+"|"+bad], prog)
+		sp.QClass[qsig(bad)] = append(sp.QClass[qsig(bad)], prog)
 		return nil, true
 	}
 	st := &State{Key: key, Prog: prog, V: v, M: m, Class: Class(key), Gen: gen}
@@ -207,26 +214,30 @@ func (sp *Space) BuildGen0() {
 	for _, d := range derivs {
 		dv = append(dv, obs.MustCompile(d))
 	}
-	addWithDerivs := func(o obs.Outcome, prog string) {
+	addWithDerivs := func(o obs.Outcome, prog string, want ...*model.V) {
 		if !o.OK() {
 			return // construction failures are the business of C10 (crash) / C01 (wrong) via explicit cases
 		}
-		sp.Add(o.V, prog, 0)
+		taint := ""
+		if len(want) > 0 {
+			taint = model.Taint(model.Set(want...))
+		}
+		sp.Add(o.V, prog, 0, taint, "literal")
 		for i, d := range dv {
 			r := obs.Eval(d, obs.Scope("x", o.V))
 			if r.OK() {
-				sp.Add(r.V, strings.ReplaceAll(derivs[i], "x", "("+prog+")"), 0)
+				sp.Add(r.V, strings.ReplaceAll(derivs[i], "x", "("+prog+")"), 0, taint, "literal")
 			}
 		}
 	}
 	// non-set values
 	for _, s := range []string{"0", "1", "2", "-1", "0.5"} {
 		if o := obs.Run(s); o.OK() {
-			sp.Add(o.V, s, 0)
+			sp.Add(o.V, s, 0, "", "literal")
 		}
 	}
 	for _, m := range sp.Members {
-		sp.Add(m.V, m.Src, 0)
+		sp.Add(m.V, m.Src, 0, "", "literal")
 	}
 	addWithDerivs(obs.Run("{}"), "{}")
 	for _, s := range SugarSrc {
@@ -234,22 +245,22 @@ func (sp *Space) BuildGen0() {
 	}
 	ms := sp.Members
 	for i, a := range ms {
-		addWithDerivs(obs.Eval(e1, obs.Scope("a", a.V)), "{"+a.Src+"}")
+		addWithDerivs(obs.Eval(e1, obs.Scope("a", a.V)), "{"+a.Src+"}", a.M)
 		if sp.K < 2 {
 			continue
 		}
 		for j := i + 1; j < len(ms); j++ {
 			b := ms[j]
-			addWithDerivs(obs.Eval(e2, obs.Scope("a", a.V, "b", b.V)), "{"+a.Src+", "+b.Src+"}")
-			addWithDerivs(obs.Eval(e2, obs.Scope("a", b.V, "b", a.V)), "{"+b.Src+", "+a.Src+"}")
-			addWithDerivs(obs.Eval(eu, obs.Scope("a", a.V, "b", b.V)), "{"+a.Src+"} | {"+b.Src+"}")
+			addWithDerivs(obs.Eval(e2, obs.Scope("a", a.V, "b", b.V)), "{"+a.Src+", "+b.Src+"}", a.M, b.M)
+			addWithDerivs(obs.Eval(e2, obs.Scope("a", b.V, "b", a.V)), "{"+b.Src+", "+a.Src+"}", a.M, b.M)
+			addWithDerivs(obs.Eval(eu, obs.Scope("a", a.V, "b", b.V)), "{"+a.Src+"} | {"+b.Src+"}", a.M, b.M)
 			if sp.K < 3 {
 				continue
 			}
 			for l := j + 1; l < len(ms); l++ {
 				c := ms[l]
-				addWithDerivs(obs.Eval(e3, obs.Scope("a", a.V, "b", b.V, "c", c.V)), "{"+a.Src+", "+b.Src+", "+c.Src+"}")
-				addWithDerivs(obs.Eval(e3, obs.Scope("a", c.V, "b", b.V, "c", a.V)), "{"+c.Src+", "+b.Src+", "+a.Src+"}")
+				addWithDerivs(obs.Eval(e3, obs.Scope("a", a.V, "b", b.V, "c", c.V)), "{"+a.Src+", "+b.Src+", "+c.Src+"}", a.M, b.M, c.M)
+				addWithDerivs(obs.Eval(e3, obs.Scope("a", c.V, "b", b.V, "c", a.V)), "{"+c.Src+", "+b.Src+", "+a.Src+"}", a.M, b.M, c.M)
 			}
 		}
 	}
@@ -275,6 +286,7 @@ var ExpMemberOps = []string{"with", "without"}
 var ExpUnary = []string{"x where true", "x => .", "1\\x", "-1\\x", "x >> .", "x where .@ != 0", "x where .@ = 0", "x => (@: .@ + 1, @item: .@item)", "x => (@: .@, @char: .@item + 96)"}
 
 type Expander struct {
+	OnePerClass bool
 	sp    *Space
 	bin   map[string]rel.Expr
 	mem   map[string]rel.Expr
@@ -417,9 +429,19 @@ func (e *Expander) LoadRecipes(notes []string) int {
 		memByKey["member:"+m.Src] = m
 	}
 	added := 0
+	repr := map[string]bool{}
 	for _, rc := range rcs {
 		if _, ok := sp.ByKey[rc.Key]; ok {
 			continue
+		}
+		if e.OnePerClass {
+			// quick tier bound: expand only the first (shortest-program) new state of each
+			// (shape class, producing operator family) pair
+			k := Class(rc.Key) + "|" + opFamily(rc.Op)
+			if repr[k] {
+				continue
+			}
+			repr[k] = true
 		}
 		a, ok := sp.ByKey[rc.A]
 		if !ok {
@@ -439,11 +461,49 @@ func (e *Expander) LoadRecipes(notes []string) int {
 		if !o.OK() {
 			continue
 		}
-		if _, isNew := sp.Add(o.V, rc.Prog, rc.Gen); isNew {
+		var bm *model.V
+		if m, ok := memByKey[rc.B]; ok {
+			bm = model.Set(m.M)
+		} else if b, ok := sp.ByKey[rc.B]; ok {
+			bm = b.M
+		}
+		taint := model.Taint(a.M, bm)
+		if m, err := obs.Denote(o.V); err == nil {
+			taint = model.Taint(a.M, bm, m)
+		}
+		if _, isNew := sp.Add(o.V, rc.Prog, rc.Gen, taint, opFamily(rc.Op)); isNew {
 			added++
 		}
 	}
 	return added
+}
+
+func opFamily(op string) string {
+	op = strings.TrimPrefix(op, "c01:")
+	switch {
+	case strings.Contains(op, "=>"):
+		return "=>"
+	case strings.Contains(op, "where"):
+		return "where"
+	case strings.Contains(op, "\\"):
+		return "offset"
+	case strings.Contains(op, ">>"):
+		return ">>"
+	}
+	return op
+}
+
+// CheckUnchanged re-dumps every state and returns those whose representation changed
+// since they were registered: values are immutable, so any change means an operator wrote
+// into storage shared with an existing value (property C03).
+func (sp *Space) CheckUnchanged() []*State {
+	var out []*State
+	for _, s := range sp.States {
+		if rel.VerifShape(s.V) != s.Key {
+			out = append(out, s)
+		}
+	}
+	return out
 }
 
 // ReportQuarantine reports the quarantined (corrupt) states as failures of the owning check.
